@@ -888,17 +888,17 @@ func RunC20(tier string, args []string) int {
 		"schedule_scenarios":                     schedReports,
 		"schedule_preemption_bound":              bound,
 		"schedule_exploration_complete_to_bound": schedExhaustive,
-		"history_states":      hst.States,
-		"history_transitions": hst.Transitions,
-		"evaluations":         evals + cycles + foreign + hst.Transitions,
-		"distinct_nontrivial": len(ids) + cycles + foreign,
-		"rule":                "location cases (string or ordered pair, x backend) + life-cycle configurations + startup-sweep cases; distinct = distinct store identifiers observed for the location cases (each location case is non-trivial: a CRL is fetched, stored, refreshed and looked up)",
-		"location_cases":      evals,
-		"distinct_store_ids":  len(ids),
-		"lifecycle_cases":     cycles,
-		"startup_sweep_cases": foreign,
-		"samples":             []string{"http://crl.test/../../../../x/../../etc/cron.d/evil", "[http://crl.test/a%2Fb%2F..%2F..%2Fc.crl, http://crl.test/ünï/名前.crl]", "5 provision/cleanup cycles, disk, configured crl_url"},
-		"exhaustive":          true,
+		"history_states":                         hst.States,
+		"history_transitions":                    hst.Transitions,
+		"evaluations":                            evals + cycles + foreign + hst.Transitions,
+		"distinct_nontrivial":                    len(ids) + cycles + foreign,
+		"rule":                                   "location cases (string or ordered pair, x backend) + life-cycle configurations + startup-sweep cases; distinct = distinct store identifiers observed for the location cases (each location case is non-trivial: a CRL is fetched, stored, refreshed and looked up)",
+		"location_cases":                         evals,
+		"distinct_store_ids":                     len(ids),
+		"lifecycle_cases":                        cycles,
+		"startup_sweep_cases":                    foreign,
+		"samples":                                []string{"http://crl.test/../../../../x/../../etc/cron.d/evil", "[http://crl.test/a%2Fb%2F..%2F..%2Fc.crl, http://crl.test/ünï/名前.crl]", "5 provision/cleanup cycles, disk, configured crl_url"},
+		"exhaustive":                             true,
 	}
 	return chk.Finish(cov)
 }
